@@ -82,6 +82,10 @@ struct Ctx {
 }
 
 fn make_ctx(anchors: bool, onchain: bool, filtered: bool) -> Ctx {
+    make_ctx2(anchors, onchain, filtered, false)
+}
+
+fn make_ctx2(anchors: bool, onchain: bool, filtered: bool, nonzero: bool) -> Ctx {
     let mut cfg = WorldCfg::default();
     cfg.onchain = onchain;
     cfg.oracle_pubkeys = vec![oracle_pub(0)];
@@ -90,6 +94,10 @@ fn make_ctx(anchors: bool, onchain: bool, filtered: bool) -> Ctx {
         p.max_feerate_per_kw = 20_000;
         if filtered {
             p.filter = unrelated_filter(&["policy-sweep", "policy-htlc", "policy-onchain"]);
+        }
+        if nonzero {
+            use lightning_signer::policy::filter::{FilterResult, FilterRule, PolicyFilter};
+            p.filter = PolicyFilter { rules: vec![FilterRule { tag: "policy-channel-safe-type".into(), is_prefix: false, action: FilterResult::Warn }] };
         }
     }));
     cfg.allowlist = vec![foreign_address(1, cfg.network)];
@@ -104,7 +112,10 @@ fn make_ctx(anchors: bool, onchain: bool, filtered: bool) -> Ctx {
     let cp = Cp::new(110);
     assert!(w.new_channel(DBID).is_ok());
     let holder_pubkeys = w.holder_basepoints(DBID).unwrap();
-    let setup = make_setup(&w, &cp, &v);
+    let mut setup = make_setup(&w, &cp, &v);
+    if nonzero {
+        setup.commitment_type = lightning_signer::channel::CommitmentType::Anchors;
+    }
     assert!(w.setup_channel(DBID, &setup).is_ok());
     let params = ChanParams { setup: setup.clone(), holder_pubkeys };
     let ch = Chan { w, cp, setup, params, v };
@@ -437,6 +448,10 @@ pub struct HCase {
     /// taken from the PSBT by the handler)
     #[serde(default)]
     pub wire: bool,
+    /// the channel is of the anchors type whose HTLC transactions still pay their own fee
+    /// (`option_anchor_outputs`); the policy demotes only `policy-channel-safe-type`
+    #[serde(default)]
+    pub nonzero: bool,
 }
 
 fn hmuts() -> Vec<HMut> {
@@ -498,11 +513,14 @@ fn run_htlc(ctx: &Ctx, c: &HCase) -> (String, Option<(String, String)>) {
     let keys = keys_for(&point);
     let delay = if c.counterparty { ch.setup.holder_selected_contest_delay } else { ch.setup.counterparty_selected_contest_delay };
     let features = ch.setup.features();
+    // the HTLC output script of every anchors channel carries the one-block CSV (BOLT-3); LDK's
+    // script builder only adds it for the zero-fee flavour, so the script is built with those
+    let rs_features = if c.nonzero { lightning_signer::lightning::types::features::ChannelTypeFeatures::anchors_zero_htlc_fee_and_dependencies() } else { features.clone() };
     let zero_fee = ch.setup.is_zero_fee_htlc();
     let mut amount = AMOUNT;
     let mut htlc = HTLCOutputInCommitment { offered: c.offered, amount_msat: amount * 1000, cltv_expiry: CLTV, payment_hash: pay_hash(1), transaction_output_index: Some(2) };
     let commitment_txid = Txid::from_slice(&[0xb7; 32]).unwrap();
-    let mut redeem = get_htlc_redeemscript(&htlc, &features, &keys);
+    let mut redeem = get_htlc_redeemscript(&htlc, &rs_features, &keys);
     let mut tx = build_htlc_transaction(&commitment_txid, if zero_fee { 0 } else { base_rate }, delay, &htlc, &features, &keys.broadcaster_delayed_payment_key, &keys.revocation_key);
     let weight: u64 = if c.offered {
         lightning_signer::lightning::ln::chan_utils::htlc_timeout_tx_weight(&features)
@@ -538,7 +556,7 @@ fn run_htlc(ctx: &Ctx, c: &HCase) -> (String, Option<(String, String)>) {
             HMut::Amount(d) => amount = (amount as i64 + d) as u64,
             HMut::OtherRedeemscript => {
                 htlc.offered = !htlc.offered;
-                redeem = get_htlc_redeemscript(&htlc, &features, &keys);
+                redeem = get_htlc_redeemscript(&htlc, &rs_features, &keys);
                 htlc.offered = !htlc.offered;
             }
             HMut::JunkRedeemscript => redeem = out_ws.clone(),
@@ -594,8 +612,8 @@ fn run_htlc(ctx: &Ctx, c: &HCase) -> (String, Option<(String, String)>) {
             let kinds: Vec<String> = c.muts.iter().map(|m| format!("{:?}", m).split('(').next().unwrap().to_string()).collect();
             let key = |what: &str| format!("C09:htlc-tx:{}:{}:{}", if c.counterparty { "counterparty" } else { "holder" }, what, kinds.join("+"));
             // the kind the supplied redeemscript denotes
-            let offered_rs = redeem == get_htlc_redeemscript(&HTLCOutputInCommitment { offered: true, ..htlc.clone() }, &features, &keys);
-            let received_rs = redeem == get_htlc_redeemscript(&HTLCOutputInCommitment { offered: false, ..htlc.clone() }, &features, &keys);
+            let offered_rs = redeem == get_htlc_redeemscript(&HTLCOutputInCommitment { offered: true, ..htlc.clone() }, &rs_features, &keys);
+            let received_rs = redeem == get_htlc_redeemscript(&HTLCOutputInCommitment { offered: false, ..htlc.clone() }, &rs_features, &keys);
             if !offered_rs && !received_rs {
                 return ("accepted".into(), Some((key("signed-with-non-htlc-redeemscript"), format!("{:?}", c))));
             }
@@ -624,14 +642,19 @@ fn run_htlc(ctx: &Ctx, c: &HCase) -> (String, Option<(String, String)>) {
                     candidates.push(0);
                 }
             } else {
-                let lo = (fee * 1000 + wgt - 1) / wgt;
-                let hi = (fee * 1000 + 999) / wgt;
-                let mut f = lo;
-                while f <= hi && candidates.len() < 4 {
-                    if f * wgt / 1000 == fee && f >= 500 && f <= 20_000 {
-                        candidates.push(f as u32);
+                // (for the fee-paying anchors type the two libraries' weight constants differ by the
+                // three units of the CSV: a rate consistent under either is in range)
+                let wgts: Vec<u128> = if c.nonzero { vec![wgt, wgt + 3] } else { vec![wgt] };
+                for wgt in wgts {
+                    let lo = (fee * 1000 + wgt - 1) / wgt;
+                    let hi = (fee * 1000 + 999) / wgt;
+                    let mut f = lo;
+                    while f <= hi && candidates.len() < 8 {
+                        if f * wgt / 1000 == fee && f >= 500 && f <= 20_000 {
+                            candidates.push(f as u32);
+                        }
+                        f += 1;
                     }
-                    f += 1;
                 }
             }
             if candidates.is_empty() {
@@ -676,16 +699,29 @@ pub fn main(tier: Tier) -> i32 {
             for offered in [false, true] {
                 for s in dev_sets(ms.len(), tier.pick(1, 2)) {
                     for onchain in [false, true] {
-                        hc.push(HCase { anchors, counterparty, offered, muts: s.iter().map(|i| ms[*i].clone()).collect(), onchain, filtered: false, wire: false });
+                        hc.push(HCase { anchors, counterparty, offered, muts: s.iter().map(|i| ms[*i].clone()).collect(), onchain, filtered: false, wire: false, nonzero: false });
                         if !onchain {
-                            hc.push(HCase { anchors, counterparty, offered, muts: s.iter().map(|i| ms[*i].clone()).collect(), onchain, filtered: true, wire: false });
+                            hc.push(HCase { anchors, counterparty, offered, muts: s.iter().map(|i| ms[*i].clone()).collect(), onchain, filtered: true, wire: false, nonzero: false });
                             // through the protocol message (the holder's message carries no point)
                             let muts: Vec<HMut> = s.iter().map(|i| ms[*i].clone()).collect();
                             if counterparty || !muts.contains(&HMut::OtherPoint) {
-                                hc.push(HCase { anchors, counterparty, offered, muts, onchain, filtered: false, wire: true });
+                                hc.push(HCase { anchors, counterparty, offered, muts, onchain, filtered: false, wire: true, nonzero: false });
                             }
                         }
                     }
+                }
+            }
+        }
+    }
+    // the fee-paying anchors type (refused by the default policy; here only that rule is demoted):
+    // every single mutation, both sides and kinds, semantic entry point and message
+    for counterparty in [false, true] {
+        for offered in [false, true] {
+            for s in dev_sets(ms.len(), 1) {
+                let muts: Vec<HMut> = s.iter().map(|i| ms[*i].clone()).collect();
+                hc.push(HCase { anchors: true, counterparty, offered, muts: muts.clone(), onchain: false, filtered: false, wire: false, nonzero: true });
+                if counterparty || !muts.contains(&HMut::OtherPoint) {
+                    hc.push(HCase { anchors: true, counterparty, offered, muts, onchain: false, filtered: false, wire: true, nonzero: true });
                 }
             }
         }
@@ -701,7 +737,7 @@ pub fn main(tier: Tier) -> i32 {
     jobs.extend(hc.iter().cloned().map(Job::H));
     let chunks: Vec<Vec<Job>> = jobs.chunks((jobs.len() + threads - 1) / threads).map(|c| c.to_vec()).collect();
     let results = par_map(&chunks, threads, |chunk| {
-        let ctxs = [make_ctx(false, false, false), make_ctx(true, false, false), make_ctx(false, true, false), make_ctx(true, true, false), make_ctx(false, false, true), make_ctx(true, false, true)];
+        let ctxs = [make_ctx(false, false, false), make_ctx(true, false, false), make_ctx(false, true, false), make_ctx(true, true, false), make_ctx(false, false, true), make_ctx(true, false, true), make_ctx(false, false, false), make_ctx(false, false, false), make_ctx2(true, false, false, true)];
         let mut out = vec![];
         for j in chunk {
             match j {
@@ -710,9 +746,9 @@ pub fn main(tier: Tier) -> i32 {
                     out.push((format!("sweep|{:?}|{}{}|v{}|{}", s.kind, s.anchors, if s.onchain { "|onchain" } else if s.filtered { "|filtered" } else if s.wire { "|wire" } else { "" }, s.version, class), class.starts_with("accepted"), vio, json!({"engine": "c09", "sweep": s})));
                 }
                 Job::H(h) => {
-                    let (class, vio) = run_htlc(&ctxs[h.anchors as usize + 2 * h.onchain as usize + 4 * h.filtered as usize], h);
+                    let (class, vio) = run_htlc(&ctxs[if h.nonzero { 8 } else { h.anchors as usize + 2 * h.onchain as usize + 4 * h.filtered as usize }], h);
                     let kinds: Vec<String> = h.muts.iter().map(|m| format!("{:?}", m).split('(').next().unwrap().to_string()).collect();
-                    out.push((format!("htlc|{}{}|{}|{}|{}|{}", h.anchors, if h.onchain { "|onchain" } else if h.filtered { "|filtered" } else if h.wire { "|wire" } else { "" }, h.counterparty, h.offered, kinds.join("+"), class), class.starts_with("accepted"), vio, json!({"engine": "c09", "htlc": h})));
+                    out.push((format!("htlc|{}{}|{}|{}|{}|{}", h.anchors, if h.nonzero && h.wire { "|fee-paying-anchors|wire" } else if h.nonzero { "|fee-paying-anchors" } else if h.onchain { "|onchain" } else if h.filtered { "|filtered" } else if h.wire { "|wire" } else { "" }, h.counterparty, h.offered, kinds.join("+"), class), class.starts_with("accepted"), vio, json!({"engine": "c09", "htlc": h})));
                 }
             }
         }
@@ -792,7 +828,7 @@ pub fn replay(v: &Value) {
             let ctx = make_ctx(s.anchors, s.onchain, s.filtered);
             println!("round {}: {:?}", round, run_sweep(&ctx, &s));
         } else if let Ok(h) = serde_json::from_value::<HCase>(rp["htlc"].clone()) {
-            let ctx = make_ctx(h.anchors, h.onchain, h.filtered);
+            let ctx = make_ctx2(h.anchors, h.onchain, h.filtered, h.nonzero);
             println!("round {}: {:?}", round, run_htlc(&ctx, &h));
         } else {
             machinery_failure("unrecognised C09 replay");
